@@ -176,3 +176,7 @@ func TestC18Permanent(t *testing.T) {
 		Rule: "bindings with 0-4 keys ending in '!' x action/guard programs (ECMAScript and native) that delete, overwrite, replace wholesale, fail, return null/scalars or reject, through Action.Exec and Spec.Step; non-trivial = >= 1 permanent binding and the program touches it, replaces the bindings, fails or may reject"},
 		genPerm, checkPerm)
 }
+
+func FuzzC18Permanent(f *testing.F) {
+	ev.Fuzz(f, ev.Opts{Property: "C18", Name: "permanent"}, genPerm, checkPerm)
+}
